@@ -13,7 +13,6 @@ import (
 	"verifharness/internal/spy"
 	"verifharness/internal/vt"
 
-	"github.com/google/uuid"
 	bitcoin_reader "github.com/tokenized/bitcoin_reader"
 	"github.com/tokenized/pkg/bitcoin"
 	"github.com/tokenized/pkg/wire"
@@ -65,7 +64,7 @@ func (r *scriptedRequestor) RequestBlock(ctx context.Context, hash bitcoin.Hash3
 	if fate == "nonode" {
 		return nil, bitcoin_reader.ErrNodeNotAvailable
 	}
-	node := &fakeNode{id: uuid.New(), txCh: make(chan *wire.MsgTx), latency: r.latency}
+	node := newFakeNode(r.latency)
 	r.wg.Add(1)
 	go func() {
 		defer r.wg.Done()
@@ -90,27 +89,18 @@ func (r *scriptedRequestor) RequestBlock(ctx context.Context, hash bitcoin.Hash3
 					r.finishes[h]++
 					r.mu.Unlock()
 				}
-				node.mu.Lock()
-				node.closeStreamLocked()
-				node.mu.Unlock()
-				<-done
+				node.endStreamAndWait(done)
 			}
 		case "fail": // the stream ends before the announced transaction arrives
 			if done, ok := start(b.header); ok {
-				node.mu.Lock()
-				node.closeStreamLocked()
-				node.mu.Unlock()
-				<-done
+				node.endStreamAndWait(done)
 			}
 		case "wrong":
 			other := b.header
 			other.Nonce += 1000
 			if done, ok := start(other); ok {
 				node.send(b.tx, done)
-				node.mu.Lock()
-				node.closeStreamLocked()
-				node.mu.Unlock()
-				<-done
+				node.endStreamAndWait(done)
 			}
 		case "drop-before": // the peer goes away before sending the block
 			node.mu.Lock()
@@ -120,10 +110,7 @@ func (r *scriptedRequestor) RequestBlock(ctx context.Context, hash bitcoin.Hash3
 		case "drop-mid":
 			if done, ok := start(b.header); ok {
 				onStop(ctx)
-				node.mu.Lock()
-				node.closeStreamLocked()
-				node.mu.Unlock()
-				<-done
+				node.endStreamAndWait(done)
 			}
 		case "never":
 		}
